@@ -63,7 +63,7 @@ def make_ctx(spec):
     c.recipient_replay_window = o.ReplayWindow(32, lambda: None)
     if spec["window"] is not None:
         c.recipient_replay_window.initialize_from_persisted({"index": spec["window"][0], "bitfield": spec["window"][1]})
-    c.echo_recovery = None
+    c.echo_recovery = None if spec.get("echo") is None else H(spec["echo"])      # only the oracle-only *_echo streams set it (the model has echo_recovery = None)
     c.responses_send_kid = bool(spec.get("send_kid", False))
     return c
 
@@ -140,6 +140,12 @@ def rfc_nonce(common_iv, iv_bytes, id_, piv):
     """RFC 8613 5.2"""
     x = bytes([len(id_)]) + id_.rjust(iv_bytes - 6, b"\0") + piv.rjust(5, b"\0")
     return bytes(a ^ b for a, b in zip(common_iv, x))
+def split_proxy_uri(u):
+    """scheme://host[:port][/seg...][?q&q] of the harness's own Proxy-Uri values (no escapes) -> scheme, host, port|None, path segments, query items"""
+    scheme, rest = u.split(b"://", 1)
+    rest, _, query = rest.partition(b"?"); auth, _, path = rest.partition(b"/")
+    host, _, port = auth.partition(b":")
+    return scheme, host, (int(port) if port else None), ([s for s in path.split(b"/")] if path else []), ([q for q in query.split(b"&")] if query else [])
 def parse_sym(ct):
     """[key, nonce, aad, plaintext, trailing copy]"""
     out = []
@@ -244,7 +250,9 @@ def gen_inner(rng, request, observe="rand"):
         pool = [4, 12, 14, 20, 23, 27, 28, 252, 2053, 65001]
     for n in rng.sample(pool, rng.choice([0, 1, 1, 2, 3, 5])):
         opts.append([n, b"" if n == 5 else gen_value(rng, n)])
-    if observe == "rand": observe = rng.choice([None, None, None, 0, 0, 1, 5, 70000]) if request else rng.choice([None, None, 0, 7, 300])
+    # request Observe: RFC 7641 values 0 / 1 (1 = deregistration is the open finding roundtrip-mismatch:observe:request-nonzero-dropped, kept rare so that
+    # it does not cut short many scenarios), seldom another value
+    if observe == "rand": observe = rng.choice([None] * 20 + [0] * 8 + [1, 1, 5]) if request else rng.choice([None, None, 0, 7, 300])
     if observe is not None: opts.append([6, minbytes(observe)])
     opts.sort(key=lambda o: o[0])
     payload = bytes(rng.randrange(256) for _ in range(rng.choice([0, 0, 1, 2, 8, 16, 17, 40, 100])))
@@ -355,7 +363,7 @@ class C11(fw.Property):
     coq_props = "Props/C11.v"
     gen_jobs = ["options_ext", "oscore_replay", "oscore_consts"]
     model_imports = ["Verif.Gen.oscore_replay", "Verif.Model.C11"]
-    quick_budget = 340
+    quick_budget = 300
     thorough_budget = 5000
     design_ref = "DESIGN.md section 16"
     technique = ("Coq proofs over an executable model of protect/unprotect parametrised by an ideal AEAD (round trip, non-interference of the outer message, "
@@ -384,7 +392,10 @@ class C11(fw.Property):
                     "harness stubs for cbor2/cryptography(AES-CCM, HKDF)/filelock; symbolic AEAD class plugged into the real code for the sym_* streams"]
     _impl_cache = {}
     assumptions = ["AEAD idealised (dec succeeds only on honest encryptions under the same key, nonce and AAD; enc injective); KDF idealised as injective",
-                   "the real cryptography wheel is never exercised in this sandbox", "Group OSCORE, Proxy-Uri splitting, Echo recovery (C12) are outside the model"]
+                   "the real cryptography wheel is never exercised in this sandbox",
+                   "Group OSCORE is outside the model; Echo recovery (echo_recovery set) is outside the model and exercised oracle-only (*_echo streams; modelled in C12)",
+                   "Proxy-Uri requests are modelled as the code is (protect raises IncompleteUrlError, open finding); non-CoAP schemes / malformed Proxy-Uri values are not generated",
+                   "callers of unprotect dispatch by code class and reject request codes other than POST/FETCH before calling (oscore_sitewrapper.py:72)"]
 
     # fw.coq_eval shards 250 terms per coqc process; a C11 term costs ~0.1-0.2 s (mostly elaboration of the scenario literal), so smaller
     # shards are needed to use the cores (framework change requested in notes/C11.md: make the shard size a Property attribute)
@@ -405,6 +416,11 @@ class C11(fw.Property):
             aes = (k % 4 == 3)
             kind = kinds[(k // 4 if aes else k) % len(kinds)] if not aes else rng.choice(["roundtrip", "tamper", "tamper_resp", "cross", "foreign", "ni", "replay"])
             yield ("aes_" if aes else "sym_") + kind, getattr(self, "g_" + kind)(rng, aes)
+        # Echo recovery (oracle-only stream: request identifiers under a replay error) and Proxy-Uri requests (model: IncompleteUrlError as the code is)
+        for k in range(max(6, n // 12)):
+            aes = (k % 3 == 2)
+            yield ("aes_" if aes else "sym_") + "echo", self.g_echo(rng, aes)
+            yield ("aes_" if aes else "sym_") + "proxy", self.g_proxy(rng, aes)
         if tier == "thorough":
             # exhaustive small scope: EVERY single-bit flip of the OSCORE option and of the ciphertext of one request and one response
             # (own Partial IV), symbolic and AES (validation of the tie and of the oracle, not a proof)
@@ -425,16 +441,18 @@ class C11(fw.Property):
                                     {"op": "tamper", "src": src, "t": [kind, i, bit], "out": 9}, {"op": "unprotect", "ctx": ctx, "src": 9, "rid": rid_, "rout": 9},
                                     {"op": "unprotect", "ctx": ctx, "src": src, "rid": rid_, "rout": 10}]}
 
-    def _req_resp(self, rng, A, B, ops, base=0, req=None, resp=None, unprotect_resp=True):
+    def _req_resp(self, rng, A, B, ops, base=0, req=None, resp=None, unprotect_resp=True, idctx="?"):
         """client ctx A protects a request (slot base+1, rid base+1), server ctx B unprotects (rid base+2), protects a response (slot base+3), client unprotects"""
         req = req or gen_inner(rng, True); resp = resp or gen_inner(rng, False)
-        ops.append({"op": "protect", "ctx": A, "msg": req, "rid": None, "kc": "default", "out": base + 1, "rout": base + 1})
+        # kid_context argument of protect: mostly the default; "off" and the explicit (matching) value are admissible calls too and must round-trip
+        k = rng.random(); kc = "default" if k < 0.86 or idctx == "?" else "off" if k < 0.93 or idctx is None else idctx
+        ops.append({"op": "protect", "ctx": A, "msg": req, "rid": None, "kc": kc, "out": base + 1, "rout": base + 1})
         ops.append({"op": "unprotect", "ctx": B, "src": base + 1, "rid": None, "rout": base + 2})
         ops.append({"op": "protect", "ctx": B, "msg": resp, "rid": base + 2, "out": base + 3, "rout": base + 3})
         if unprotect_resp: ops.append({"op": "unprotect", "ctx": A, "src": base + 3, "rid": base + 1, "rout": base + 4})
     def g_roundtrip(self, rng, aes):
         a, b = gen_pair(rng, aes); ops = []
-        self._req_resp(rng, 0, 1, ops)
+        self._req_resp(rng, 0, 1, ops, idctx=a["idctx"])
         if rng.random() < 0.6:   # a notification: second response to the same request uses the server's own Partial IV
             ops.append({"op": "protect", "ctx": 1, "msg": gen_inner(rng, False, observe=rng.choice([1, 9])), "rid": 2, "out": 5, "rout": 5})
             if rng.random() < 0.5: ops.append({"op": "tamper", "src": 5, "t": ["setopt", 6, rng.choice(["", "02", "ffffff"])], "out": 5})
@@ -587,6 +605,47 @@ class C11(fw.Property):
             else: ops += [{"op": "tamper", "src": 1, "t": ["code", rng.choice([0, 1, 3, 4, 6, 7, 31, 32, 63, 64, 69, 192, 255])], "out": 5}, {"op": "unprotect", "ctx": 1, "src": 5, "rid": None, "rout": 6}]
             extra["precond"] = "caller passes a request_id / code combination the stack never produces"
         d = {"ctxs": [a, b], "ops": ops}; d.update(extra); return d
+    def g_echo(self, rng, aes):
+        """server context with echo_recovery set (B.1.2 recovery): window uninitialised or not; request without / with wrong / with right Echo, 4.01 + Echo
+        reply, answered request, response to it, replays; what matters here: the request identifiers handed on must not offer the request's nonce for reuse
+        unless the number was checked against an initialised window (oscore.py:1300-1305)"""
+        a, b = gen_pair(rng, aes); a["seq"] = min(a["seq"], 2 ** 40 - 10); b["seq"] = min(b["seq"], 2 ** 40 - 10)
+        echo = bytes(rng.randrange(256) for _ in range(rng.choice([1, 8, 8, 12]))).hex(); b["echo"] = echo
+        uninit = rng.random() < 0.7
+        if uninit: b["window"] = None
+        def req(e):
+            m = gen_inner(rng, True, observe=None); m["opts"] = [o for o in m["opts"] if o[0] != 252]
+            if e is not None: m["opts"] = sorted(m["opts"] + [[252, e]], key=lambda o: o[0])
+            return m
+        ops = []; slot = [0]
+        def send(e, src=None):
+            s = slot[0] = slot[0] + 10
+            if src is None: ops.append({"op": "protect", "ctx": 0, "msg": req(e), "rid": None, "kc": "default", "out": s, "rout": s}); src = s
+            ops.append({"op": "unprotect", "ctx": 1, "src": src, "rid": None, "rout": s + 1, "out401": s + 2})
+            return s
+        s1 = send(rng.choice([None, None, "00" * 8, echo[:-2] + "ff"]))
+        ops.append({"op": "unprotect", "ctx": 0, "src": s1 + 2, "rid": s1, "rout": s1 + 3})         # the client reads the 4.01 (skipped if the request was accepted)
+        ops.append({"op": "protect", "ctx": 1, "msg": gen_inner(rng, False), "rid": s1 + 1, "out": s1 + 4, "rout": s1 + 4})   # a response under the identifiers handed on
+        ops.append({"op": "unprotect", "ctx": 0, "src": s1 + 4, "rid": s1, "rout": s1 + 5})
+        s2 = send(echo)                                                                             # the request repeated with the Echo value
+        ops.append({"op": "protect", "ctx": 1, "msg": gen_inner(rng, False), "rid": s2 + 1, "out": s2 + 4, "rout": s2 + 4})
+        ops.append({"op": "unprotect", "ctx": 0, "src": s2 + 4, "rid": s2, "rout": s2 + 5})
+        if rng.random() < 0.7: send(None, src=s2)                                                    # replays: decrypted (echo_recovery set), then refused
+        if rng.random() < 0.7: send(None, src=s1)
+        if rng.random() < 0.5:
+            s3 = send(None); ops.append({"op": "protect", "ctx": 1, "msg": gen_inner(rng, False), "rid": s3 + 1, "out": s3 + 4, "rout": s3 + 4})
+            ops.append({"op": "unprotect", "ctx": 0, "src": s3 + 4, "rid": s3, "rout": s3 + 5})
+        return {"ctxs": [a, b], "ops": ops}
+    def g_proxy(self, rng, aes):
+        """requests carrying Proxy-Uri: _split_message must keep scheme / host / port outside and move path / query inside (oscore.py:1150-1158, 1178-1179)"""
+        a, b = gen_pair(rng, aes); a["seq"] = min(a["seq"], 2 ** 40 - 4)
+        host = rng.choice(["h.example", "proxy-target.example.org", "a"]); port = rng.choice(["", "", ":61616", ":5683"]); scheme = rng.choice(["coap", "coap", "coaps", "coap+tcp"])
+        path = "".join("/" + "".join(rng.choice("abcdefghijklmnopqrstuvwxyz0123456789") for _ in range(rng.choice([6, 8, 12]))) for _ in range(rng.randint(0, 3)))
+        query = "&".join("".join(rng.choice("abcdefghijklmnopqrstuvwxyz") for _ in range(7)) + "=" + "".join(rng.choice("0123456789") for _ in range(6)) for _ in range(rng.randint(0, 2)))
+        uri = "%s://%s%s%s%s" % (scheme, host, port, path, "?" + query if query else "")
+        m = gen_inner(rng, True); m["opts"] = sorted([o for o in m["opts"] if o[0] not in (3, 7, 11, 15, 39)] + [[35, uri.encode().hex()]], key=lambda o: o[0])
+        ops = [{"op": "protect", "ctx": 0, "msg": m, "rid": None, "kc": "default", "out": 1, "rout": 1}, {"op": "unprotect", "ctx": 1, "src": 1, "rid": None, "rout": 2}]
+        return {"ctxs": [a, b], "ops": ops, "proxy": {"scheme": scheme, "host": host, "port": port[1:], "path": [s for s in path.split("/")[1:]], "query": query.split("&") if query else []}}
     def g_replay(self, rng, aes):
         """several requests on one pair of contexts, some delivered twice or out of order"""
         a, b = gen_pair(rng, aes); a["seq"] = min(a["seq"], 2 ** 40 - 8); ops = []; n = rng.randint(2, 5)
@@ -635,6 +694,15 @@ class C11(fw.Property):
                 incoming = aiocoap.Message.decode(wire_msg.encode(), "peer")
                 try:
                     u, r = c.unprotect(incoming, None if op["rid"] is None else rids[op["rid"]])
+                except o.ReplayErrorWithEcho as e:
+                    # the 4.01 + Echo the site wrapper would send (oscore.py:154-160), protected with the identifiers the exception carries
+                    try:
+                        m401 = e.to_message()
+                        res = {"k": "E", "rid": canon_rid(e.request_id), "code": int(m401.code), "opts": canon_opts(m401), "payload": m401.payload.hex(), "seq": c.sender_sequence_number}
+                    except Exception as e2:
+                        out.append(exn_name(e2)); continue
+                    if op.get("out401") is not None: msgs[op["out401"]] = {"code": res["code"], "opts": res["opts"], "payload": res["payload"]}
+                    rids[op["rout"]] = e.request_id; out.append(res); continue
                 except Exception as e:
                     out.append(exn_name(e)); continue
                 w = c.recipient_replay_window
@@ -668,6 +736,7 @@ class C11(fw.Property):
 
     # ---------------------------------------------------------------- model
     def model(self, stream, inp):
+        if stream.endswith("_echo"): return None      # oracle-only: Echo recovery is C12's model (here echo_recovery = None)
         ctxs = glist(["(%s, %s)" % (gz(i), g_ctx(s)) for i, s in enumerate(inp["ctxs"])])
         return "run_packed sym_aead (Build_env %s [] []) %s" % (ctxs, glist([g_op(o) for o in inp["ops"]]))
     def decode(self, stream, inp, p):
@@ -737,9 +806,11 @@ class C11(fw.Property):
             if k == "protect":
                 S = ctxs[op["ctx"]]; inner = op["msg"]; is_req = 1 <= inner["code"] < 32
                 rid_in = rids.get(op["rid"]) if op["rid"] is not None else None
+                proxy_uri = next((H(x) for n, x in inner["opts"] if n == 35), None) if is_req else None
                 if isinstance(r, str):
                     if r == "exn:ContextUnavailable" and seqs[op["ctx"]] >= 2 ** 40 - 1: continue      # exhausted: refusing is the required behaviour
                     if precond: continue
+                    if proxy_uri is not None: return ("C11:protect-exception:%s:proxy-uri" % r[4:], "protect raised %s for a request carrying Proxy-Uri %s (op %d)" % (r, proxy_uri.decode(), oi))
                     return ("C11:protect-exception:" + r[4:], "protect raised %s for an admissible message (op %d)" % (r, oi))
                 if seqs[op["ctx"]] >= 2 ** 40 - 1 and not (rid_in and rid_in["reusable"]):
                     return ("C11:sequence-number-exhausted", "protect issued a Partial IV although the sender sequence number %d is exhausted" % seqs[op["ctx"]])
@@ -747,6 +818,11 @@ class C11(fw.Property):
                 try: code, oopts, pay = parse_coap(H(r["wire"]))
                 except Exception: return ("C11:outer-unparsable", "serialised outer message is not a CoAP datagram (op %d)" % oi)
                 iopts = [(n, H(x)) for n, x in inner["opts"]]
+                pscheme = pport = None
+                if proxy_uri is not None:
+                    # RFC 8613 4.1.3.2 / oscore.py:1150-1158: Proxy-Uri is split; scheme, host, port stay outside, path and query go inside
+                    pscheme, phost, pport, ppath, pquery = split_proxy_uri(proxy_uri)
+                    iopts = sorted([(n, x) for n, x in iopts if n not in (3, 7, 35, 39)] + [(3, phost)] + [(11, s) for s in ppath] + [(15, q) for q in pquery], key=lambda o: o[0])
                 iobs = next((x for n, x in iopts if n == 6), None); ihost = next((x for n, x in iopts if n == 3), None)
                 # --- fixed outer codes
                 if is_req: want = 5 if iobs is not None else 2
@@ -761,6 +837,11 @@ class C11(fw.Property):
                 ohost = next((x for n, x in oopts if n == 3), None); oobs = next((x for n, x in oopts if n == 6), None)
                 if ohost != (ihost if is_req else None): return ("C11:outer-uri-host", "outer Uri-Host %r, message had %r" % (ohost, ihost))
                 if is_req and oobs != iobs: return ("C11:outer-observe", "outer Observe %r, message had %r" % (oobs, iobs))
+                if proxy_uri is not None:
+                    oport = next((int.from_bytes(x, "big") for n, x in oopts if n == 7), None); oscheme = next((x for n, x in oopts if n == 39), None)
+                    if oscheme != pscheme: return ("C11:outer-proxy-scheme", "outer Proxy-Scheme %r for Proxy-Uri %s (op %d)" % (oscheme, proxy_uri.decode(), oi))
+                    if oport != pport and not (oport is None and pport in (5683, 5684)): return ("C11:outer-uri-port", "outer Uri-Port %r for Proxy-Uri %s (op %d)" % (oport, proxy_uri.decode(), oi))
+                elif any(n in (7, 39) for n in nums): return ("C11:outer-option:%d" % next(n for n in nums if n in (7, 39)), "Uri-Port / Proxy-Scheme outside although the request has no Proxy-Uri (op %d)" % oi)
                 # --- what the OSCORE option says
                 f = parse_oscore_option(next(x for n, x in oopts if n == 9))
                 if f is None: return ("C11:option-malformed", "protect produced a malformed OSCORE option (op %d)" % oi)
@@ -819,6 +900,29 @@ class C11(fw.Property):
                                      and prov["is_req"] != is_resp_call
                                      and (not is_resp_call or (rid_in is not None and (H(rid_in["kid"]), H(rid_in["piv"])) == prov["bind"]))
                                      and (is_resp_call or fresh(op["ctx"], int.from_bytes(prov["own_piv"], "big"))))
+                inner_echo = None if prov["forged"] else next((x.hex() for n, x in prov["inner"][1] if n == 252), None)
+                n_req = int.from_bytes(f["piv"], "big") if (f is not None and f["piv"] is not None and not is_resp_call) else None
+                if expect_accept is False and not prov["forged"] and not precond and not prov["tampers"] and not is_resp_call and wins[op["ctx"]] is None and R.get("echo") is not None:
+                    S = ctxs[prov["sender"]]
+                    matching = self._keys_match(aes, R, S) and alg_params(R) == alg_params(S) and R["rid"] == S["sid"] and R["idctx"] == S["idctx"] and prov["is_req"]
+                    if matching and inner_echo == R["echo"]: expect_accept = True
+                    if matching and inner_echo != R["echo"] and not (isinstance(r, dict) and r["k"] == "E"):
+                        return ("C11:echo-challenge-missing", "a genuine request to a context with uninitialised window and echo_recovery was answered with %r instead of 4.01 + Echo (op %d)" % (r if isinstance(r, str) else r["k"], oi))
+                if isinstance(r, dict) and r["k"] == "E":
+                    # ReplayErrorWithEcho: the identifiers it carries (used for the 4.01 and remembered by the caller) must not offer the request's nonce for reuse
+                    if wins[op["ctx"]] is not None or R.get("echo") is None or prov["forged"]: return ("C11:echo-challenge-unexpected", "4.01 + Echo although the window is initialised / no echo_recovery (op %d)" % oi)
+                    if r["rid"][2]: return ("C11:nonce-reuse-offered-for-replay", "ReplayErrorWithEcho carries identifiers with can_reuse_nonce=True for Partial IV %s that was never checked against a window (op %d)" % (r["rid"][1], oi))
+                    f401 = parse_oscore_option(next((H(x) for n, x in r["opts"] if n == 9), b""))
+                    own = minbytes(seqs[op["ctx"]]) or b"\0"
+                    if f401 is None or f401["piv"] != own or r["seq"] != seqs[op["ctx"]] + 1:
+                        return ("C11:nonce-reuse-offered-for-replay", "the 4.01 + Echo reply carries Partial IV %r (sender counter %d -> %d): it must use a fresh sequence number of its own (op %d)" % (f401 and f401["piv"], seqs[op["ctx"]], r["seq"], oi))
+                    seqs[op["ctx"]] += 1
+                    rids[op["rout"]] = {"kid": r["rid"][0], "piv": r["rid"][1], "reusable": False, "style": r["rid"][3]}
+                    if op.get("out401") is not None:
+                        cur401 = {"code": r["code"], "opts": r["opts"], "payload": r["payload"]}
+                        msgs[op["out401"]] = {"sender": op["ctx"], "inner": (129, [(252, H(R["echo"]))], b""), "is_req": False, "bind": (H(r["rid"][0]), H(r["rid"][1])), "own_piv": own,
+                                              "cur": cur401, "orig": cur401, "forged": False, "tampers": [], "inner_obs": None}
+                    continue
                 if isinstance(r, str):
                     name = r[4:]
                     if name not in ALLOWED_ERRORS:
@@ -830,11 +934,22 @@ class C11(fw.Property):
                     if expect_accept: return ("C11:roundtrip-rejected:" + name, "an untouched message from the matching context was rejected with %s (op %d)" % (name, oi))
                     continue
                 # ---- a message came out
-                if f is not None and f["piv"] is not None and not is_resp_call:
-                    n_ = int.from_bytes(f["piv"], "big")
-                    if fresh(op["ctx"], n_): strike(op["ctx"], n_)
+                reusable = False
+                if n_req is not None:
+                    n_ = n_req
+                    if wins[op["ctx"]] is None:
+                        # uninitialised window: acceptance needs this process's Echo value inside the request (C12); the window starts at this number
+                        if not precond and (R.get("echo") is None or inner_echo != R["echo"]):
+                            return ("C11:accepted-with-uninitialised-window", "a request was accepted although the replay window is uninitialised and it does not carry the context's Echo value (op %d)" % oi)
+                        wins[op["ctx"]] = {"index": n_, "bits": 1}
+                    elif fresh(op["ctx"], n_): strike(op["ctx"], n_); reusable = True
                     elif not precond: return ("C11:replayed-request-accepted", "a request with Partial IV %d was accepted although that number was already used or lies below the replay window (op %d)" % (n_, oi))
-                rids[op["rout"]] = rid_in if is_resp_call else {"kid": r["rid"][0], "piv": r["rid"][1], "reusable": r["rid"][2], "style": r["rid"][3]}
+                    # can_reuse_nonce of the identifiers handed on = "this number was checked against an initialised window and was unseen" (oscore.py:1300-1305)
+                    if r["rid"][2] and not reusable and not precond:
+                        return ("C11:nonce-reuse-offered-for-replay", "unprotect handed on identifiers with can_reuse_nonce=True for Partial IV %d although the number was not validated by the replay window (op %d)" % (n_, oi))
+                elif is_resp_call and f is not None and f["piv"] is not None and wins[op["ctx"]] is None and R.get("echo") is not None and not prov["forged"]:
+                    wins[op["ctx"]] = {"index": int.from_bytes(f["piv"], "big"), "bits": 1}      # a bound response with its own Partial IV initialises the window (oscore.py:1408-1422)
+                rids[op["rout"]] = rid_in if is_resp_call else {"kid": r["rid"][0], "piv": r["rid"][1], "reusable": reusable, "style": r["rid"][3]}
                 if prov["forged"]: continue
                 S = ctxs[prov["sender"]]; orig = prov["orig"]
                 if curopt is None or f is None: return ("C11:accepted-malformed-option", "a message with OSCORE option %r was accepted (op %d)" % (curopt, oi))
@@ -866,11 +981,16 @@ class C11(fw.Property):
                 if r["code"] != code: return ("C11:roundtrip-mismatch:code", "unprotected code %d, original %d (op %d)" % (r["code"], code, oi))
                 if r["payload"] != pl.hex(): return ("C11:roundtrip-mismatch:payload", "unprotected payload differs from the original (op %d)" % oi)
                 if r["opts"] != [[n, x.hex()] for n, x in eopts if n != 6]: return ("C11:roundtrip-mismatch:options", "unprotected options %r, original %r (op %d)" % (r["opts"], [[n, x.hex()] for n, x in eopts if n != 6], oi))
-                if prov["is_req"]: want_obs = prov["inner_obs"] if curobs == 0 else None
+                if prov["is_req"]:
+                    # the inner Observe of a request comes out when the outer one (as received) agrees with it — RFC 8613 4.1.3.5.1: both carry 0 or 1
+                    want_obs = prov["inner_obs"] if curobs == prov["inner_obs"] else None
+                    if want_obs not in (None, 0) and r["observe"] is None:
+                        return ("C11:roundtrip-mismatch:observe:request-nonzero-dropped", "request Observe %d (inner and outer) comes out without Observe (op %d)" % (want_obs, oi))
+                    if curobs == 0 and prov["inner_obs"] not in (None, 0): want_obs = prov["inner_obs"]      # outer 0 / inner different: only reachable by tampering with the outer option; the code keeps the inner value
                 elif curobs is not None: want_obs = -1 if f["piv"] is None else int.from_bytes(f["piv"], "big")
                 else: want_obs = prov["inner_obs"]
                 if r["observe"] != want_obs: return ("C11:roundtrip-mismatch:observe", "unprotected Observe %r, expected %r (op %d)" % (r["observe"], want_obs, oi))
-                if not is_resp_call and r["rid"] != [R["rid"], f["piv"].hex(), True, [cur["code"], 68 if cur["code"] == 2 else 69]]:
+                if not is_resp_call and r["rid"] != [R["rid"], f["piv"].hex(), reusable, [cur["code"], 68 if cur["code"] == 2 else 69]]:
                     return ("C11:request-id", "unprotect returned identifiers %r for kid %s piv %s" % (r["rid"], R["rid"], f["piv"].hex()))
         # ---- corpus cases carrying published test vectors (RFC 8613 appendix C): the outer message must be the published one
         for i, want in (inp.get("expect") or {}).items():
@@ -887,13 +1007,15 @@ class C11(fw.Property):
                 if not aes:
                     pa, pb_ = parse_sym(H(a["payload"])), parse_sym(H(b["payload"]))
                     if pa[:3] != pb_[:3]: return ("C11:outer-depends-on-inner:key-nonce-aad", "key / nonce / AAD depend on the inner message")
-                else:
-                    la = len(H(inp["ops"][i]["msg"]["payload"])); lb = len(H(inp["ops"][j]["msg"]["payload"]))
+                elif len(H(inp["ops"][i]["msg"]["payload"])) == len(H(inp["ops"][j]["msg"]["payload"])) and \
+                        sum(len(x) for _, x in inp["ops"][i]["msg"]["opts"]) == sum(len(x) for _, x in inp["ops"][j]["msg"]["opts"]) and \
+                        [n for n, _ in inp["ops"][i]["msg"]["opts"]] == [n for n, _ in inp["ops"][j]["msg"]["opts"]] and len(a["payload"]) != len(b["payload"]):
+                    return ("C11:outer-depends-on-inner:length", "equally long inner messages give ciphertexts of %d / %d bytes" % (len(a["payload"]) // 2, len(b["payload"]) // 2))
         return None
     def nontrivial(self, stream, inp, res):
         if not isinstance(res, list): return None
-        acc = sum(1 for op, r in zip(inp["ops"], res) if op["op"] == "unprotect" and isinstance(r, dict))
-        rej = sum(1 for op, r in zip(inp["ops"], res) if op["op"] == "unprotect" and isinstance(r, str) and r.startswith("exn:"))
+        acc = sum(1 for op, r in zip(inp["ops"], res) if op["op"] == "unprotect" and isinstance(r, dict) and r["k"] == "U")
+        rej = sum(1 for op, r in zip(inp["ops"], res) if op["op"] == "unprotect" and ((isinstance(r, str) and r.startswith("exn:")) or (isinstance(r, dict) and r["k"] == "E")))
         prot = sum(1 for op, r in zip(inp["ops"], res) if op["op"] == "protect" and isinstance(r, dict))
         ok = (acc >= 1 and rej >= 1) or acc >= 2 or ("ni" in inp and prot >= 2)
         return fw.jdump([stream, inp]) if ok else None
